@@ -58,7 +58,15 @@ func H_C19_checkLocal() {
 	ok := checkLocal(w, &http.Request{Host: "x"})
 	if ok {
 		vReach("let-through")
-		vAssert(vHost == "localhost" || vIsIP, "only 'localhost' or an IP literal passes the Host check")
+		// DNS names are case-insensitive: "LocalHost" is the name 'localhost'
+		isLocal := false
+		if len(vHost) == 9 {
+			isLocal = true
+			for i := 0; i < 9; i++ {
+				isLocal = vAnd(isLocal, vHost[i]|0x20 == "localhost"[i])
+			}
+		}
+		vAssert(vOr(isLocal, vIsIP), "only 'localhost' or an IP literal passes the Host check")
 		vAssert(vEffect("env:net/http.Error") == 0, "a request that passes is not answered here")
 	} else {
 		vReach("refused")
